@@ -9,7 +9,7 @@
 // driver can attribute it to the case that was executing (ASAN_OPTIONS may extend this)
 extern "C" __attribute__((used)) const char *__asan_default_options() { return "exitcode=77:detect_leaks=0:abort_on_error=0:detect_stack_use_after_return=0:allocator_may_return_null=1"; }
 extern "C" __attribute__((used)) const char *__ubsan_default_options() { return "halt_on_error=1:exitcode=77:print_stacktrace=1"; }
-extern "C" __attribute__((used)) const char *__tsan_default_options() { return "halt_on_error=1:exitcode=77:report_signal_unsafe=0:report_thread_leaks=0:second_deadlock_stack=0:history_size=4"; }
+extern "C" __attribute__((used)) const char *__tsan_default_options() { return "halt_on_error=1:exitcode=77:report_signal_unsafe=0:report_thread_leaks=0:second_deadlock_stack=0:history_size=7"; }
 
 int main(int argc, char **argv) {
   setvbuf(stdout, nullptr, _IOLBF, 0);
